@@ -1,5 +1,504 @@
+//! C02 — each method attains its advertised order.
+//! (1) tableau extraction + complete rooted-tree order conditions; (2) embedded estimator through
+//! accept/reject on tree-scripted inputs, polynomial quadrature, measured estimator size T(h);
+//! (3) empirical local order, Radau vs the (2,3) Pade approximant, naccpt(tol) scaling.
+
 use crate::ctx::{Ctx, Meta};
+use crate::extract::*;
+use crate::probe::*;
+use crate::problems::*;
 use crate::report::Report;
+use crate::rng::Rng;
+use crate::trees::Forest;
+use crate::util::{hash_str, slope};
+use ivp::prelude::*;
+use serde_json::json;
+use std::cell::RefCell;
+
+pub fn order_of(m: Method) -> usize {
+    match m {
+        Method::RK4 => 4,
+        Method::RK23 => 3,
+        Method::DOPRI5 => 5,
+        Method::DOP853 => 8,
+        Method::RADAU => 5,
+        Method::BDF => 1,
+    }
+}
+pub const EXPLICIT: [Method; 4] = [Method::RK4, Method::RK23, Method::DOPRI5, Method::DOP853];
+
+/// variants of the extraction run: (x0, h, step, clip)
+pub fn variants() -> Vec<(f64, f64, usize, Option<f64>)> {
+    vec![
+        (0.0, 1.0, 1, None),
+        (0.0, -1.0, 1, None),
+        (3.0, 0.5, 2, None),
+        (-2.0, -0.25, 3, None),
+        (0.0, 1.0, 1, Some(0.5)),
+        (1.0, -2.0, 1, Some(0.25)),
+        (0.0, 1.0, 2, None),
+        (5.0, -1.0, 2, None),
+    ]
+}
+
+/// one scalar scripted step: call j answered with vals[j] (0 beyond); returns (accepted_at_full_h, calls)
+fn scripted_scalar_step(m: Method, vals: &[f64], atol: f64) -> Result<bool, String> {
+    let v = vals.to_vec();
+    let f = Scripted {
+        n: 1,
+        answers: Box::new(move |j: usize, d: &mut [f64]| {
+            d[0] = if j < v.len() { v[j] } else { 0.0 };
+        }),
+        calls: RefCell::new(Vec::new()),
+    };
+    let lo = LowOpts { first_step: Some(1.0), dense: false, ..Default::default() };
+    let mut rec = Rec { f: &f, thetas: vec![], steps: Vec::new() };
+    run_low(m, &f, 0.0, &[0.0], 1.0, &Tol::S(0.0), &Tol::S(atol), &lo, &mut rec)?;
+    if rec.steps.len() < 2 {
+        return Err("no step was completed".into());
+    }
+    let per_nodense = match m {
+        Method::RK23 => 3,
+        Method::DOPRI5 => 6,
+        Method::DOP853 => 12,
+        _ => 0,
+    };
+    Ok(rec.steps[1].x == 1.0 && rec.steps[1].calls_at_entry == 1 + per_nodense)
+}
+
+/// Is the first step of size h from exact data accepted with absolute tolerance atol (rtol = 0)?
+fn first_step_accepted(m: Method, p: &Composite, x0: f64, h: f64, atol: f64) -> Option<bool> {
+    let probe = Probe::new(p, x0);
+    let lo = LowOpts { first_step: Some(h), dense: false, ..Default::default() };
+    let mut so = RecSolOut::new(Some(&probe));
+    let y0 = p.exact(x0).unwrap();
+    match run_low_guarded(m, &probe, x0, &y0, x0 + h, &Tol::S(0.0), &Tol::S(atol), &lo, &mut so) {
+        LowOutcome::Ok(_) => {
+            if so.cbs.len() < 2 {
+                return None;
+            }
+            Some((so.cbs[1].x - (x0 + h)).abs() <= 4.0 * f64::EPSILON * (x0.abs() + h.abs()))
+        }
+        _ => None,
+    }
+}
+
 pub fn run(ctx: &Ctx) -> (Report, Meta) {
-    (Report::new(&ctx.prop), Meta::new("not built yet"))
+    let res_tol = 2e-13;
+    let meta = Meta::new(
+        "(1) for RK4, RK23, DOPRI5, DOP853 the extended Butcher tableau (every evaluation of a step incl. FSAL and dense stages) is extracted from the real stepper in 8 variants (first / second / third step of a run, both signs of h, x0 != 0, steps clipped by xend) and checked against ALL rooted-tree order conditions up to order p (8 trees for p=4 ... 200 trees for p=8), row sums = c, consistency between variants, and non-vacuity (some tree of order p+1 fails); (2) the embedded estimator is probed with a scalar scripted right-hand side answering stage j with the elementary weight Phi_j(t): steps must be accepted for every tree of order <= q^ and rejected for some tree of order q^+1; polynomial quadratures y' = k t^(k-1); estimator size T(h) measured by bisection on atol, slope q^+1; (3) local error slopes of one step from exact data on closed-form nonlinear problems (both signs of h), one Radau step on y' = lambda y and 2x2 rotation-decay systems vs the (2,3) Pade approximant for real and complex z, fitted exponent of naccpt(tol); non-trivial = (method, variant or tree or problem, h) obligation that was actually evaluated (distinct by hash)",
+    )
+    .assume("Butcher's order-condition theory: a Runge-Kutta method has order p iff sum_i b_i Phi_i(t) = 1/gamma(t) for all rooted trees of order <= p")
+    .assume("extraction arithmetic is exact: y0 = 0, |h| a power of two, unit-vector answers")
+    .thresholds(json!({"order_condition_residual": res_tol, "row_sum": 1e-14, "empirical_order_margin": {"RK4": 0.5, "RK23": 0.5, "DOPRI5": 0.6, "RADAU": 0.6, "DOP853": 1.2}, "pade_rel": 1e-12, "estimator_slope_tol": [0.4, 0.6], "steps_exponent_range": "[-1.35/q, -0.55/q]"}))
+    .floor("order_conditions_checked", 500)
+    .floor("tableau_variants_extracted", 20)
+    .floor("estimator_tree_probes", 100)
+    .floor("local_order_slopes_fitted", 12)
+    .floor("pade_points_checked", 30)
+    .floor("step_count_exponents_fitted", 3);
+    let mut rep = Report::new("C02");
+
+    // ------------------------------------------------------------------ (1) extraction
+    let forest = Forest::new(9);
+    let thetas: Vec<f64> = vec![];
+    let mut base_tab: Vec<Option<Tableau>> = Vec::new();
+    for &m in EXPLICIT.iter() {
+        let p = order_of(m);
+        let mname_ = mname(m);
+        let mut first: Option<Tableau> = None;
+        for (vi, &(x0, h, step, clip)) in variants().iter().enumerate() {
+            let case_id = format!("extract/{}/{}", mname_, vi);
+            if !ctx.want(&case_id) {
+                continue;
+            }
+            let vdesc = json!({"method": mname_, "x0": x0, "h": h, "step_index": step, "clipped_to": clip});
+            let cls = format!("{}{}{}", if step > 1 { "later_step" } else { "first_step" }, if h < 0.0 { "_backward" } else { "" }, if clip.is_some() { "_clipped" } else { "" });
+            rep.eval();
+            let t = match std::panic::catch_unwind(|| extract(m, x0, h, step, clip, &thetas)) {
+                Ok(Ok(t)) => t,
+                Ok(Err(e)) => {
+                    rep.violate(&format!("C02/tableau_extraction/{}/{}", mname_, cls), format!("the stepper did not behave like a Runge-Kutta step with the scripted right-hand side: {}", e), &case_id, vdesc);
+                    continue;
+                }
+                Err(pn) => {
+                    rep.violate(&format!("C02/no_panic/{}/{}", mname_, cls), crate::probe::panic_message(&pn), &case_id, vdesc);
+                    continue;
+                }
+            };
+            rep.count("tableau_variants_extracted", 1);
+            rep.nontrivial(hash_str(&case_id));
+            // row sums
+            for i in 0..t.s {
+                let rs: f64 = t.a[i].iter().sum();
+                if (rs - t.c[i]).abs() > 1e-14 * (1.0 + t.a[i].iter().map(|v| v.abs()).sum::<f64>()) {
+                    rep.violate(&format!("C02/row_sum_eq_c/{}/{}", mname_, cls), format!("stage {}: sum_j a_ij = {:e} but the stage time corresponds to c = {:e}", i, rs, t.c[i]), &case_id, vdesc.clone());
+                }
+            }
+            // order conditions
+            let phi = forest.weights(&t.a);
+            let mut worst: f64 = 0.0;
+            for ord in 1..=p {
+                for &tid in &forest.by_order[ord] {
+                    let lhs: f64 = (0..t.s).map(|i| t.b[i] * phi[tid][i]).sum();
+                    let cond: f64 = (0..t.s).map(|i| (t.b[i] * phi[tid][i]).abs()).sum::<f64>().max(1.0);
+                    let r = (lhs - 1.0 / forest.trees[tid].gamma).abs() / cond;
+                    worst = worst.max(r);
+                    rep.count("order_conditions_checked", 1);
+                    if r > res_tol {
+                        rep.violate(
+                            &format!("C02/order_condition/{}/{}_order{}", mname_, cls, ord),
+                            format!("tree {} of order {}: sum b_i Phi_i = {:e}, 1/gamma = {:e} (residual {:e})", forest.describe(tid), ord, lhs, 1.0 / forest.trees[tid].gamma, r),
+                            &case_id,
+                            vdesc.clone(),
+                        );
+                        break;
+                    }
+                }
+            }
+            rep.worst(&format!("order_condition_residual_{}", mname_), worst);
+            // non-vacuity: order p+1 must fail somewhere
+            let mut maxnext: f64 = 0.0;
+            for &tid in &forest.by_order[p + 1] {
+                let lhs: f64 = (0..t.s).map(|i| t.b[i] * phi[tid][i]).sum();
+                maxnext = maxnext.max((lhs - 1.0 / forest.trees[tid].gamma).abs());
+            }
+            if maxnext < 1e-6 {
+                rep.violate(&format!("C02/oracle_vacuous/{}/{}", mname_, cls), format!("all conditions of order {} hold as well (max residual {:e}): the extracted tableau is degenerate", p + 1, maxnext), &case_id, vdesc.clone());
+            }
+            // consistency with the first variant
+            if let Some(f0) = &first {
+                let mut d: f64 = 0.0;
+                for i in 0..t.s {
+                    d = d.max((t.c[i] - f0.c[i]).abs()).max((t.b[i] - f0.b[i]).abs());
+                    for j in 0..t.s {
+                        d = d.max((t.a[i][j] - f0.a[i][j]).abs());
+                    }
+                }
+                rep.worst(&format!("tableau_variant_deviation_{}", mname_), d);
+                if d > 1e-13 {
+                    rep.violate(&format!("C02/tableau_depends_on_context/{}/{}", mname_, cls), format!("the coefficients applied in this variant differ from those of the first step at x0 = 0, h = 1 by {:e}", d), &case_id, vdesc.clone());
+                }
+            } else {
+                first = Some(t.clone());
+                rep.sample(json!({"method": mname_, "stages_incl_fsal_and_dense": t.s, "c": t.c, "b": t.b, "worst_order_condition_residual": worst, "max_residual_at_order_p_plus_1": maxnext}));
+            }
+        }
+        base_tab.push(first);
+    }
+
+    // ------------------------------------------------------------------ (2) estimator
+    for (mi, &m) in [Method::RK23, Method::DOPRI5, Method::DOP853].iter().enumerate() {
+        let mname_ = mname(m);
+        let qhat = [2usize, 4, 5][mi];
+        // tableau without dense stages is what the estimator run uses; the extended one has the same leading part
+        let Some(Some(t)) = base_tab.get(mi + 1) else { continue };
+        let phi = forest.weights(&t.a);
+        let per = match m {
+            Method::RK23 => 3,
+            Method::DOPRI5 => 6,
+            _ => 12,
+        };
+        let mut rejected_next = 0;
+        for ord in 1..=(qhat + 1) {
+            for &tid in &forest.by_order[ord] {
+                let case_id = format!("estimator/{}/tree{}", mname_, tid);
+                if !ctx.want(&case_id) {
+                    continue;
+                }
+                let vals: Vec<f64> = (0..=per).map(|j| phi[tid][j]).collect();
+                rep.eval();
+                rep.count("estimator_tree_probes", 1);
+                rep.nontrivial(hash_str(&case_id));
+                let case = json!({"method": mname_, "tree": forest.describe(tid), "order": ord, "answers": vals});
+                match std::panic::catch_unwind(|| scripted_scalar_step(m, &vals, 1e-10)) {
+                    Ok(Ok(acc)) => {
+                        if ord <= qhat && !acc {
+                            rep.violate(&format!("C02/estimator_vanishes_up_to_order/{}/order{}", mname_, ord), format!("the embedded estimate does not vanish on tree {} of order {} <= {}: the step was rejected", forest.describe(tid), ord, qhat), &case_id, case);
+                        }
+                        if ord == qhat + 1 && !acc {
+                            rejected_next += 1;
+                        }
+                    }
+                    Ok(Err(e)) => rep.violate(&format!("C02/estimator_probe_failed/{}/order{}", mname_, ord), e, &case_id, case),
+                    Err(pn) => rep.violate(&format!("C02/no_panic/{}/estimator", mname_), crate::probe::panic_message(&pn), &case_id, case),
+                }
+            }
+        }
+        if ctx.only.is_none() && rejected_next == 0 {
+            rep.violate(&format!("C02/estimator_order_too_high/{}/order{}", mname_, qhat + 1), format!("the embedded estimate vanishes on every tree of order {}: the error estimator cannot see the leading error term", qhat + 1), &format!("estimator/{}/next", mname_), json!({"method": mname_}));
+        }
+        rep.count(&format!("estimator_rejections_at_order_qhat_plus_1_{}", mname_), rejected_next);
+        // polynomial quadratures y' = k t^(k-1): accepted for k <= qhat, rejected at k = qhat+1
+        for k in 1..=(qhat + 1) {
+            let case_id = format!("estimator/{}/poly{}", mname_, k);
+            if !ctx.want(&case_id) {
+                continue;
+            }
+            let p = FnProblem { n: 1, name: format!("y' = {} t^{}", k, k - 1), fun: move |t: f64, _y: &[f64], d: &mut [f64]| d[0] = k as f64 * t.powi(k as i32 - 1) };
+            let probe = Probe::new(&p, 0.0);
+            let lo = LowOpts { first_step: Some(1.0), dense: false, ..Default::default() };
+            let mut so = RecSolOut::new(Some(&probe));
+            let out = run_low_guarded(m, &probe, 0.0, &[0.0], 1.0, &Tol::S(0.0), &Tol::S(1e-10), &lo, &mut so);
+            rep.eval();
+            rep.count("polynomial_quadrature_probes", 1);
+            if let LowOutcome::Ok(_) = out {
+                let acc = so.cbs.len() >= 2 && so.cbs[1].x == 1.0;
+                let case = json!({"method": mname_, "rhs": format!("y' = {} t^{}", k, k - 1)});
+                if k <= qhat && !acc {
+                    rep.violate(&format!("C02/estimator_polynomial/{}/degree{}", mname_, k), format!("y' = {} t^{} is integrated exactly by both formulas but the step of size 1 was rejected", k, k - 1), &case_id, case);
+                } else if k == qhat + 1 && acc {
+                    rep.violate(&format!("C02/estimator_polynomial/{}/degree{}", mname_, k), format!("the estimator does not see the error on y' = {} t^{} (degree {}+1)", k, k - 1, qhat), &case_id, case);
+                }
+            }
+        }
+        // estimator size T(h): bisection on atol
+        let case_id = format!("estimator/{}/size", mname_);
+        if ctx.want(&case_id) {
+            let prob = Composite::new(vec![Base::Tan { u0: 0.3 }], Warp::Id, None, 0.0);
+            let hs: Vec<f64> = match m {
+                Method::DOP853 => vec![0.4, 0.2, 0.1, 0.05],
+                _ => vec![0.2, 0.1, 0.05, 0.025, 0.0125],
+            };
+            let mut lh = Vec::new();
+            let mut lt = Vec::new();
+            for &h in &hs {
+                let (mut lo_, mut hi_) = (1e-20f64, 1e3f64);
+                for _ in 0..70 {
+                    let mid = (lo_.ln() * 0.5 + hi_.ln() * 0.5).exp();
+                    match first_step_accepted(m, &prob, 0.0, h, mid) {
+                        Some(true) => hi_ = mid,
+                        Some(false) => lo_ = mid,
+                        None => break,
+                    }
+                }
+                rep.evals(70);
+                if hi_ < 1e2 && hi_ > 1e-19 {
+                    lh.push(h.ln());
+                    lt.push(hi_.ln());
+                }
+            }
+            if lh.len() >= 3 {
+                // median slope over consecutive octaves (one octave may be irregular where the estimate changes sign)
+                let mut sl: Vec<f64> = (1..lh.len()).map(|k| (lt[k] - lt[k - 1]) / (lh[k] - lh[k - 1])).collect();
+                sl.sort_by(|a, b| a.partial_cmp(b).unwrap());
+                let med = sl[sl.len() / 2];
+                let (want, tol) = match m {
+                    Method::RK23 => (3.0, 0.4),
+                    Method::DOPRI5 => (5.0, 0.4),
+                    _ => (8.0, 0.6),
+                };
+                rep.worst(&format!("estimator_size_slope_deviation_{}", mname_), (med - want).abs());
+                rep.count("estimator_size_slopes", 1);
+                rep.nontrivial(hash_str(&case_id));
+                if (med - want).abs() > tol {
+                    rep.violate(&format!("C02/estimator_size_slope/{}/tan", mname_), format!("the measured size of the error estimate scales like h^{:.2}, expected h^{} (slopes {:?})", med, want, sl), &case_id, json!({"method": mname_, "h": hs, "log_T": lt}));
+                }
+            } else {
+                rep.inconclusive("estimator_size_bisection_failed");
+            }
+        }
+    }
+
+    // ------------------------------------------------------------------ (3a) local order
+    let nprob = ctx.size(8, 32);
+    for &m in [Method::RK4, Method::RK23, Method::DOPRI5, Method::DOP853, Method::RADAU].iter() {
+        let mname_ = mname(m);
+        let p = order_of(m);
+        let mut slopes_of_method: Vec<f64> = Vec::new();
+        for pi in 0..nprob {
+            for &sgn in &[1.0, -1.0] {
+                let case_id = format!("local/{}/{}/{}", mname_, pi, sgn);
+                if !ctx.want(&case_id) {
+                    continue;
+                }
+                let mut rng = Rng::derive(ctx.seed, 2, (pi * 2 + if sgn > 0.0 { 0 } else { 1 }) as u64);
+                // nonlinear, non-autonomous closed-form problem of dimension 1..2
+                let bases = match pi % 4 {
+                    0 => vec![Base::Tan { u0: rng.range(0.2, 0.6) }],
+                    1 => vec![Base::Logistic { r: rng.range(1.5, 2.5), k: 2.0, u0: rng.range(0.3, 0.8) }, Base::Tanh { a: 1.5, u0: rng.range(-0.6, 0.6) }],
+                    2 => vec![Base::Bern { a: 1.5, b: 0.8, u0: rng.range(0.3, 0.8) }],
+                    _ => vec![Base::Tanh { a: 1.6, u0: rng.range(-0.5, 0.5) }, Base::Tan { u0: rng.range(-0.3, 0.3) }],
+                };
+                let warp = if pi % 2 == 0 { Warp::Sin { a: 0.3, b: 1.3 } } else { Warp::Id };
+                let nn: usize = bases.iter().map(|b| b.dim()).sum();
+                let mix = if nn >= 2 { Some(Mix::random(nn, &mut rng)) } else { None };
+                let x0 = rng.range(-0.3, 0.3);
+                let prob = Composite::new(bases, warp, mix, x0);
+                // constant-step integration over a fixed span (all steps forced to be accepted with
+                // size h: first_step = max_step = h, huge tolerance): global error O(h^p) <=> local O(h^(p+1))
+                let span = 1.0;
+                let ks: Vec<f64> = match m {
+                    Method::DOP853 => vec![2.0, 4.0, 8.0, 16.0],
+                    Method::DOPRI5 | Method::RADAU => vec![4.0, 8.0, 16.0, 32.0, 64.0],
+                    _ => vec![8.0, 16.0, 32.0, 64.0, 128.0],
+                };
+                let mut lh = Vec::new();
+                let mut le = Vec::new();
+                if !prob.regular(x0 + sgn * span) || prob.amplification(x0 + sgn * span) > 20.0 {
+                    rep.inconclusive("order_problem_not_regular_on_span");
+                    continue;
+                }
+                for &k in &ks {
+                    let h = sgn * span / k;
+                    let probe = {
+                        let mut pr = Probe::new(&prob, x0);
+                        pr.user_jac = true;
+                        pr
+                    };
+                    let (rt, at, lo) = if m == Method::RADAU {
+                        (Tol::S(1e-6), Tol::S(1e3), LowOpts { first_step: Some(h), max_step: Some(h.abs()), dense: false, newton_tol: Some(1e-18), newton_maxiter: Some(50), ..Default::default() })
+                    } else {
+                        (Tol::S(0.0), Tol::S(1e300), LowOpts { first_step: Some(h), max_step: Some(h.abs()), dense: false, ..Default::default() })
+                    };
+                    let mut so = RecSolOut::new(Some(&probe));
+                    let y0 = prob.exact(x0).unwrap();
+                    let xe = x0 + sgn * span;
+                    let out = run_low_guarded(m, &probe, x0, &y0, xe, &rt, &at, &lo, &mut so);
+                    rep.eval();
+                    if let LowOutcome::Ok(ir) = out {
+                        if ir.status == Status::Success && so.cbs.len() as f64 >= k && so.cbs.len() as f64 <= k + 2.0 {
+                            let ex = prob.exact(xe).unwrap();
+                            let e = so.cbs.last().unwrap().y.iter().zip(&ex).fold(0.0f64, |mx, (a, b)| mx.max((a - b).abs()));
+                            if e > 1e-12 * ex.iter().fold(1.0f64, |mx, v| mx.max(v.abs())) {
+                                lh.push((span / k).ln());
+                                le.push(e.ln());
+                            }
+                        }
+                    }
+                }
+                if lh.len() >= 3 {
+                    // fit on the finest step sizes above the rounding floor (coarse ones are pre-asymptotic)
+                    let keep = if m == Method::DOP853 { 2 } else { 3 };
+                    let k0 = lh.len() - keep;
+                    let s = slope(&lh[k0..], &le[k0..]);
+                    rep.count("local_order_slopes_fitted", 1);
+                    rep.nontrivial(hash_str(&case_id));
+                    rep.worst(&format!("global_order_deficit_{}", mname_), p as f64 - s);
+                    let margin = match m {
+                        Method::DOP853 => 1.2,
+                        Method::DOPRI5 | Method::RADAU => 0.6,
+                        _ => 0.5,
+                    };
+                    slopes_of_method.push(s);
+                    // per-problem verdict only for Radau (no tableau extraction exists for it); for the
+                    // explicit methods single problems are legitimately irregular (sign changes of the
+                    // error constant) and the verdict is taken on the median below
+                    if m == Method::RADAU && s < p as f64 - margin {
+                        rep.violate(
+                            &format!("C02/empirical_order/{}/{}", mname_, if sgn > 0.0 { "forward" } else { "backward" }),
+                            format!("with constant steps the global error scales like h^{:.2}; order {} requires h^{} (local error h^{})", s, p, p, p + 1),
+                            &case_id,
+                            json!({"method": mname_, "problem": prob.describe(), "log_h": lh, "log_err": le}),
+                        );
+                    }
+                } else {
+                    rep.inconclusive("order_too_few_points_above_rounding");
+                }
+            }
+        }
+        if ctx.only.is_none() && slopes_of_method.len() >= 4 {
+            slopes_of_method.sort_by(|a, b| a.partial_cmp(b).unwrap());
+            let med = slopes_of_method[slopes_of_method.len() / 2];
+            let margin = if m == Method::DOP853 { 1.5 } else { 0.6 };
+            rep.worst(&format!("median_global_order_deficit_{}", mname_), p as f64 - med);
+            rep.count("median_order_verdicts", 1);
+            if med < p as f64 - margin {
+                rep.violate(&format!("C02/empirical_order_median/{}/all", mname_), format!("median fitted global order over {} problems is {:.2}, advertised order {}", slopes_of_method.len(), med, p), &format!("local/{}/median", mname_), json!({"method": mname_, "slopes": slopes_of_method}));
+            }
+        }
+    }
+
+    // ------------------------------------------------------------------ (3b) Radau vs Pade(2,3)
+    {
+        let pade = |zr: f64, zi: f64| -> (f64, f64) {
+            // R(z) = (1 + 2z/5 + z^2/20) / (1 - 3z/5 + 3z^2/20 - z^3/60)
+            let mul = |a: (f64, f64), b: (f64, f64)| (a.0 * b.0 - a.1 * b.1, a.0 * b.1 + a.1 * b.0);
+            let z = (zr, zi);
+            let z2 = mul(z, z);
+            let z3 = mul(z2, z);
+            let num = (1.0 + 0.4 * z.0 + z2.0 / 20.0, 0.4 * z.1 + z2.1 / 20.0);
+            let den = (1.0 - 0.6 * z.0 + 0.15 * z2.0 - z3.0 / 60.0, -0.6 * z.1 + 0.15 * z2.1 - z3.1 / 60.0);
+            let d = den.0 * den.0 + den.1 * den.1;
+            ((num.0 * den.0 + num.1 * den.1) / d, (num.1 * den.0 - num.0 * den.1) / d)
+        };
+        let mut zs: Vec<(f64, f64)> = vec![(-0.5, 0.0), (-0.9, 0.6), (-0.9, -0.6), (0.125, 0.25), (0.125, -0.25), (-50.0, 0.0), (0.0, 2.0), (0.0, -2.0), (0.5, 0.0), (-3.0, 4.0), (-1e3, 0.0), (-8.0, 1.0), (1.0, 1.0), (-0.01, 0.0)];
+        let mut rng = Rng::derive(ctx.seed, 22, 0);
+        for _ in 0..ctx.size(30, 400) {
+            zs.push((-rng.logu(1e-2, 1e2) * if rng.chance(0.85) { 1.0 } else { -0.02 }, rng.range(-5.0, 5.0)));
+        }
+        for (zi_, &(zr, zi)) in zs.iter().enumerate() {
+            for &h in &[1.0, -0.5, 0.25] {
+                let case_id = format!("pade/{}/{}", zi_, h);
+                if !ctx.want(&case_id) {
+                    continue;
+                }
+                let (a, b) = (zr / h, zi / h);
+                let prob = Composite::new(vec![Base::Rot { a, w: b, u0: [0.8, -0.3] }], Warp::Id, None, 0.0);
+                let mut probe = Probe::new(&prob, 0.0);
+                probe.user_jac = true;
+                let lo = LowOpts { first_step: Some(h), dense: false, newton_tol: Some(1e-18), newton_maxiter: Some(50), ..Default::default() };
+                let mut so = RecSolOut::new(Some(&probe));
+                let out = run_low_guarded(Method::RADAU, &probe, 0.0, &[0.8, -0.3], h, &Tol::S(1e-6), &Tol::S(1e3), &lo, &mut so);
+                rep.eval();
+                let case = json!({"z": [zr, zi], "h": h, "lambda": [a, b]});
+                match out {
+                    LowOutcome::Ok(_) if so.cbs.len() == 2 => {
+                        let (rr, ri) = pade(zr, zi);
+                        let want = (rr * 0.8 - ri * (-0.3), rr * (-0.3) + ri * 0.8);
+                        let got = (so.cbs[1].y[0], so.cbs[1].y[1]);
+                        let zabs = zr.hypot(zi).max(1.0);
+                        let e = ((got.0 - want.0).abs().max((got.1 - want.1).abs())) / zabs;
+                        rep.count("pade_points_checked", 1);
+                        rep.nontrivial(hash_str(&case_id));
+                        rep.worst("radau_vs_pade_rel_error", e);
+                        if e > 1e-12 {
+                            rep.violate("C02/radau_stability_function/RADAU/linear", format!("one Radau step gives ({:e},{:e}) but R(z) y0 = ({:e},{:e}) for z = {}+{}i (error {:e})", got.0, got.1, want.0, want.1, zr, zi, e), &case_id, case);
+                        }
+                    }
+                    LowOutcome::Ok(_) => rep.inconclusive("radau_single_step_needed_several_steps"),
+                    LowOutcome::Panic(msg) => rep.violate("C02/no_panic/RADAU/pade", msg, &case_id, case),
+                    _ => rep.inconclusive("radau_single_step_failed"),
+                }
+            }
+        }
+    }
+
+    // ------------------------------------------------------------------ (3c) naccpt(tol)
+    for (m, q, tl, th, span) in [(Method::RK23, 3.0, 1e-7, 1e-3, 60.0), (Method::DOPRI5, 5.0, 1e-10, 1e-4, 200.0), (Method::DOP853, 8.0, 1e-11, 1e-4, 600.0)] {
+        let case_id = format!("stepcount/{}", mname(m));
+        if !ctx.want(&case_id) {
+            continue;
+        }
+        let prob = Composite::new(vec![Base::Rot { a: 0.0, w: 1.0, u0: [1.0, 0.3] }, Base::Rot { a: -0.002, w: 0.37, u0: [0.5, 0.5] }], Warp::Id, None, 0.0);
+        let mut lt = Vec::new();
+        let mut ln_ = Vec::new();
+        for k in 0..13 {
+            let tol = th * (tl / th as f64).powf(k as f64 / 12.0);
+            let mut scn = Scn::new(m, 0.0, span, prob.y0());
+            scn.rtol = Tol::S(tol);
+            scn.atol = Tol::S(tol);
+            scn.budget = 5_000_000;
+            let r = run_solve(&prob, &scn, false, false);
+            rep.eval();
+            if let Outcome::Ok(s) = &r.out {
+                if s.status == Status::Success && s.naccpt >= 30 {
+                    lt.push(tol.ln());
+                    ln_.push((s.naccpt as f64).ln());
+                }
+            }
+        }
+        if lt.len() >= 8 {
+            let e = slope(&lt, &ln_);
+            rep.count("step_count_exponents_fitted", 1);
+            rep.nontrivial(hash_str(&case_id));
+            rep.worst(&format!("step_count_exponent_times_q_{}", mname(m)), -e * q);
+            if e < -1.35 / q || e > -0.55 / q {
+                rep.violate(&format!("C02/step_count_scaling/{}/rotation", mname(m)), format!("naccpt grows like tol^{:.3}; expected about tol^(-1/{}) = tol^{:.3}", e, q, -1.0 / q), &case_id, json!({"method": mname(m), "log_tol": lt, "log_naccpt": ln_}));
+            }
+        } else {
+            rep.inconclusive("step_count_too_few_points");
+        }
+    }
+    (rep, meta)
 }
